@@ -115,6 +115,18 @@ fn main() {
         }
     }
     rep.bump_by("generated.outside-core-or-rejected", outside);
+    // every program runs once on the real implementation (in parallel threads), results are shared by the comparisons
+    let reals: Vec<Observed> = {
+        let texts: Vec<String> = cases.iter().map(|c| c.text.clone()).collect();
+        let n_threads = 8;
+        let chunk = (texts.len() + n_threads - 1) / n_threads.max(1);
+        let mut handles = vec![];
+        for part in texts.chunks(chunk.max(1)) {
+            let part: Vec<String> = part.to_vec();
+            handles.push(std::thread::spawn(move || part.iter().map(|t| run_real(t, b"", BUDGET)).collect::<Vec<_>>()));
+        }
+        handles.into_iter().flat_map(|h| h.join().unwrap()).collect()
+    };
     let reqs: Vec<String> = cases.iter().map(|c| format!("(ref.run {} {})", FUEL, c.ast)).collect();
     let answers = ask(&reqs);
     // the code-generator model: compile(model) must equal the real instruction list, instruction for instruction
@@ -158,7 +170,7 @@ fn main() {
     let vanswers = ask(&vreqs);
     for (j, a) in vanswers.iter().enumerate() {
         let c = &cases[cidx[j]];
-        let real = run_real(&c.text, b"", BUDGET);
+        let real = reals[cidx[j]].clone();
         match parse_ref_answer(a) {
             Some(vm) => {
                 if vm.0 == "outOfFuel" || real.outcome == "budget" {
@@ -205,7 +217,7 @@ fn main() {
     }
     let mut shrunk = 0;
     for (k, c) in cases.iter().enumerate() {
-        let real = run_real(&c.text, b"", BUDGET);
+        let real = reals[k].clone();
         let real2 = if k % 50 == 0 { Some(run_real(&c.text, b"", BUDGET)) } else { None };
         let Some(rf) = parse_ref_answer(&answers[k]) else {
             rep.case(Some(c.text.clone()));
